@@ -511,6 +511,70 @@ func C16(p *ir.Program, r *report.R) {
 		r.Check("K10", "lock-region/sites", "-", nRegions >= 3, fmt.Sprintf("%d non-deferred lock regions found in reactor Receive methods (confirmed by hand: 3 in consensus)", nRegions))
 	}
 
+	// a registered type that does not fit the field it is decoded into is rejected, not a reflect panic (shared with C11)
+	typeChosenByInputFits(c)
+	// a failed decode leaves an optional pointer as it was: addProposalBlockPart decodes straight into
+	// cs.ProposalBlock and relies on the pointer staying nil when the bytes are not a block (a half-filled
+	// block with nil parts would pass isProposalComplete and be dereferenced by the next step)
+	{
+		mk := p.Func("libs/ser", "makeOptionalPtrDecoder")
+		n := 0
+		for _, cl := range mk.AnonFuncs {
+			for _, call := range ir.Calls(cl, "reflect.Value.Set") {
+				if Arg(call, 0) != "val" || strings.HasPrefix(Arg(call, 1), "reflect.Zero(") {
+					continue
+				}
+				n++
+				c.Guards("ser.makeOptionalPtrDecoder", "set pointer", call.(ssa.Instruction), G{"only-after-successful-decode", "eq(dyn:etypeinfo.decoder(s,*),nil)"})
+			}
+		}
+		c.MustFind("K1", "ser.makeOptionalPtrDecoder/set pointer", mk, n, "val.Set(newval)")
+	}
+	// methods that refuse a nil receiver with a sanity panic (VoteSet.AddVote, VoteSet.SetPeerMaj23) are
+	// called on state fields only where the field is known to be set: cs.LastCommit is nil for the whole
+	// first height, and a peer chooses when a "previous height" precommit arrives (fix ff38f2e)
+	{
+		n := 0
+		for _, f := range p.Funcs {
+			if f.Pkg == nil || ir.RelPkg(f.Pkg.Pkg) == "" || f.Blocks == nil || f.Signature.Recv() == nil || len(f.Params) == 0 || strings.HasSuffix(p.Pos(f.Pos()), "_test.go") {
+				continue
+			}
+			// entry: if recv == nil { panic }
+			b0 := f.Blocks[0]
+			ifi, ok := b0.Instrs[len(b0.Instrs)-1].(*ssa.If)
+			if !ok {
+				continue
+			}
+			atoms := ir.CondAtoms(ifi.Cond, true)
+			if len(atoms) != 1 || atoms[0] != "eq("+f.Params[0].Name()+",nil)" {
+				continue
+			}
+			panics := false
+			for _, in := range b0.Succs[0].Instrs {
+				if call, ok := in.(*ssa.Call); ok && strings.Contains(ir.CalleeName(call), "Panic") {
+					panics = true
+				}
+				if _, ok := in.(*ssa.Panic); ok {
+					panics = true
+				}
+			}
+			if !panics || f.Object() == nil {
+				continue
+			}
+			for _, cs := range p.CallSites(f.Object().(*types.Func)) {
+				if strings.HasSuffix(p.Pos(cs.Fn.Pos()), "_test.go") {
+					continue
+				}
+				recv := Arg(cs.Instr, 0)
+				if strings.Contains(recv, "(") || strings.Contains(recv, "φ") || !strings.Contains(recv, ".") {
+					continue // locals and call results: covered by the nil-dereference sinks of the taint analysis
+				}
+				n++
+				c.Guards(ir.FuncName(ir.EnclosingTop(cs.Fn)), "call "+f.Name()+" on "+recv, cs.Instr.(ssa.Instruction), G{"receiver-set", "!eq(" + recv + ",nil)"})
+			}
+		}
+		r.Check("K1", "nil-refusing-methods/sites", "-", n >= 1, fmt.Sprintf("%d calls of nil-refusing methods on state fields found", n))
+	}
 }
 
 var _ = report.Discharged
